@@ -84,3 +84,11 @@ Proof.
       destruct Hf as [Hf|[Hf|[]]]; apply (f_equal (String.substring 0 2)) in Hf; discriminate Hf.
     + intros Hn. right. right. right. split; [reflexivity | exact Hn].
 Qed.
+
+(* ---- class <-> meshio cell type: what a supported class is written as is read back as that class (finite) *)
+Lemma class_type_roundtrip :
+  forallb (fun c => match lookup c gen_type_of_class with
+                    | Some ty => match lookup ty gen_class_of_type with Some c' => String.eqb c c' | None => false end
+                    | None => false
+                    end) supported_classes = true /\ List.length supported_classes = 8.
+Proof. vm_compute. split; reflexivity. Qed.
